@@ -23,7 +23,8 @@ META = {
                 "and any clocks after the word or while deselected change nothing. TLC explores every event sequence "
                 "(all commands, addresses, data, aborts after any number of bits incl. mid-bit, pokes) on small register "
                 "files and proves the theorems. The real SPIRegisterInterface (address/register sizes 15/32, 7/8, 4/5, "
-                "3/2, 2/2, 1/3, 1/1; memory, constant, signal-backed and write-only registers) is driven by a host model "
+                "3/2, 2/2, 1/3, 1/1; memory, constant, signal-backed and write-only registers; aborts after every bit count "
+                "and with CS released -2..+4 cycles around either SCK edge, each followed by a read-back) is driven by a host model "
                 "that expands events into clock cycles with random legal timing; every event's observations (SDO while "
                 "SCK high, write-strobe counts, register values, write values) are validated by TLC.",
         "note": "Timing is an environment assumption of the host model (SCK high >= 2, >= 4 device cycles after each "
@@ -41,9 +42,12 @@ META = {
                 "any time, aborts at any bit, foreign clocking, word_out changes) for small word sizes in all four modes "
                 "and both bit orders and proves the whole-word, reported-once and SDO theorems. The real "
                 "SPIDeviceInterface is driven for word sizes 1..17 x CPOL x CPHA x msb/lsb (and cs_idles_high variants) "
-                "with TLC-simulated behaviours and a seeded-random cycle-level host (1..3 words per CS assertion, aborts "
-                "between any two edges); every recorded cycle is validated by TLC against the specification.",
-        "note": "Host assumptions: SCK/CS transitions at least two device cycles apart, CS asserted with SCK idle, SDI "
+                "with TLC-simulated behaviours and a seeded-random cycle-level host (1..3 words per CS assertion, CS released "
+                "exactly 1..6 cycles after the last edge and asserted 1..6 cycles before the first, aborts between any "
+                "two edges); every recorded cycle is validated by TLC against the specification.",
+        "note": "Host assumptions: SCK edges (and CS changes) at least two device cycles apart, SCK and CS never in the "
+                "same cycle (adjacent cycles allowed: CS release 1..6 cycles after the last edge is swept), CS asserted "
+                "with SCK idle, SDI "
                 "stable on SCK edges, word_out stable around transitions and until the strobe. word_in between strobes, "
                 "SDO outside the host's sample edges and SDO in CPHA=0 modes are not constrained (the property does not "
                 "state them). LSB-first transmission is checked in the configured order. Trusted base: TLC, "
@@ -611,16 +615,17 @@ def _spi_dev_driver(ws, cpol, cpha, msb, cs_idles_high):
 
 
 class _SpiHost:
-    """Builds a legal cycle-level SPI host stimulus (see SpiDev.tla, EnvFail): transitions of SCK / CS never in
-    consecutive cycles, SDI never changes on an SCK edge, word_out only changes away from transitions and only
-    more than `maxlat` cycles after a word-completing sample edge."""
+    """Builds a legal cycle-level SPI host stimulus (see SpiDev.tla, EnvFail): SCK edges at least two cycles apart,
+    CS changes at least two cycles apart, never both in one cycle (but possibly in adjacent cycles), SDI never
+    changes on an SCK edge, word_out only changes away from transitions and only more than `maxlat` cycles after
+    a word-completing sample edge."""
 
-    def __init__(self, rng, ws, cpol, cpha, maxlat=4):
+    def __init__(self, rng, ws, cpol, cpha, maxlat=4, fast=False):
         self.rng, self.ws, self.cpol, self.cpha, self.maxlat = rng, ws, cpol, cpha, maxlat
+        self.gaps = (1, 1, 1, 1, 2) if fast else (1, 1, 1, 2, 3)
         self.cur = {"cs": False, "sck": cpol, "sdi": 0, "wout": 0}
         self.cycles = [dict(self.cur)]
         self.since_complete = 1000
-        self.max_edges_per_assertion = 0
 
     def hold(self, n):
         for _ in range(n):
@@ -631,8 +636,9 @@ class _SpiHost:
         self.cur.update(kw)
         self.hold(1)
 
-    def transition(self, **kw):
-        self.hold(self.rng.choice((1, 1, 1, 2, 3)))   # at least one quiet cycle before every transition
+    def transition(self, gap=None, **kw):
+        """`gap` quiet cycles, then the transition.  gap=0 is only used between an SCK edge and a CS change."""
+        self.hold(self.rng.choice(self.gaps) if gap is None else gap)
         self.change(**kw)
 
     def maybe_wout(self, value):
@@ -650,26 +656,34 @@ class _SpiHost:
                 self.hold(1)
                 self.change(sdi=self.rng.getrandbits(1))
 
-    def assertion(self, nbits, bits, wouts, abort_mid_bit=False):
-        """One CS assertion clocking `nbits` bits (sdi values from `bits`); wouts[k] = word_out to present for word k."""
+    def assertion(self, nbits, bits, wouts, abort_mid_bit=False, assert_off=None, release_off=None):
+        """One CS assertion clocking `nbits` bits (sdi values from `bits`); wouts[k] = word_out to present for word k.
+        assert_off  = cycles from the CS assertion to the first SCK edge (None: random >= 2)
+        release_off = cycles from the last SCK edge to the CS release (None: random >= 1)
+        abort_mid_bit: CS is released between the two edges of the last bit."""
         rng, ws = self.rng, self.ws
+        lead, trail = 1 - self.cpol, self.cpol
         self.maybe_wout(wouts[0])
+        if assert_off is not None and self.cpha == 0:
+            self.hold(1)
+            self.change(sdi=bits[0])                            # data set up before CS, so the first edge can be early
+            self.hold(1)
         self.transition(cs=True)
         nxt = 1
         for j in range(nbits):
             last = j == nbits - 1
-            lead, trail = 1 - self.cpol, self.cpol
+            first_gap = assert_off - 1 if (j == 0 and assert_off is not None) else None
             if self.cpha == 0:
-                self.hold(1)
-                self.change(sdi=bits[j])
-                self.transition(sck=lead)                       # sample edge
+                if first_gap is None:
+                    self.change(sdi=bits[j])
+                self.transition(gap=first_gap, sck=lead)        # sample edge
                 if (j + 1) % ws == 0:
                     self.since_complete = 0
                 if last and abort_mid_bit:
                     break
                 self.transition(sck=trail)
             else:
-                self.transition(sck=lead)
+                self.transition(gap=first_gap, sck=lead)
                 self.hold(rng.choice((0, 0, 1)))
                 self.change(sdi=bits[j])
                 if last and abort_mid_bit:
@@ -683,10 +697,9 @@ class _SpiHost:
                     nxt += 1
             if (j + 1) % ws == 0 and nxt <= (j + 1) // ws:
                 nxt = (j + 1) // ws + 1
-        self.max_edges_per_assertion = max(self.max_edges_per_assertion, nbits - (1 if abort_mid_bit else 0))
-        self.transition(cs=False)
+        self.transition(gap=(release_off - 1) if release_off is not None else rng.choice((0, 1, 1, 2, 3)), cs=False)
         if self.cur["sck"] != self.cpol:
-            self.transition(sck=self.cpol)
+            self.transition(gap=rng.choice((0, 1, 2)), sck=self.cpol)
         self.hold(rng.randint(1, 3))
 
     def finish(self):
@@ -694,12 +707,18 @@ class _SpiHost:
         return self.cycles
 
 
+def _rnd_words(rng, ws, n):
+    mask = (1 << ws) - 1
+    return [rng.choice((rng.getrandbits(ws), mask, 1, 1 << (ws - 1), mask ^ 1)) & mask for _ in range(n)]
+
+
 def _spi_dev_stimulus(rng, ws, cpol, cpha, words_per_assertion, aborts=True):
     """A trace-worth of CS assertions; words_per_assertion = list like [1, 2, 3]."""
     h = _SpiHost(rng, ws, cpol, cpha)
-    mask = (1 << ws) - 1
     plan = list(words_per_assertion)
     rng.shuffle(plan)
+    if aborts:
+        plan.append(1)
     for k, nw in enumerate(plan):
         if rng.random() < 0.4:
             h.foreign_clock(rng.randint(1, 3))
@@ -710,9 +729,27 @@ def _spi_dev_stimulus(rng, ws, cpol, cpha, words_per_assertion, aborts=True):
             nbits -= rng.randint(1, ws - 1)
             mid = rng.random() < 0.5
         bits = [rng.getrandbits(1) for _ in range(max(nbits, 1))]
-        wouts = [rng.choice((rng.getrandbits(ws), mask, 1, 1 << (ws - 1), mask ^ 1)) & mask for _ in range(nw + 1)]
-        h.assertion(max(nbits, 1) if nbits > 0 else 1, bits, wouts, abort_mid_bit=mid)
-    return h.finish(), h.max_edges_per_assertion
+        h.assertion(max(nbits, 1), bits, _rnd_words(rng, ws, nw + 1), abort_mid_bit=mid)
+    return h.finish()
+
+
+def _spi_dev_sweep(rng, ws, cpol, cpha, words, offsets, fast=True):
+    """CS assertions of words[k] whole words each, sweeping the CS timing: assertion k releases CS exactly d =
+    offsets[k] cycles after its last SCK edge (for CPHA=0 alternately after the completing leading edge, i.e. between
+    the two edges of the last bit, and after the trailing edge) and asserts CS 7-d cycles before its first edge.
+    A last assertion is aborted inside a word (random timing)."""
+    h = _SpiHost(rng, ws, cpol, cpha, fast=fast)
+    for k, (nw, d) in enumerate(zip(words, offsets)):
+        if rng.random() < 0.25:
+            h.foreign_clock(rng.randint(1, 2))
+        bits = [rng.getrandbits(1) for _ in range(nw * ws)]
+        h.assertion(nw * ws, bits, _rnd_words(rng, ws, nw + 1), abort_mid_bit=(cpha == 0 and k % 2 == 0),
+                    assert_off=7 - d, release_off=d)
+    if ws > 1:
+        nbits = ws - rng.randint(1, ws - 1)
+        h.assertion(nbits, [rng.getrandbits(1) for _ in range(nbits)], _rnd_words(rng, ws, 2),
+                    abort_mid_bit=rng.random() < 0.5)
+    return h.finish()
 
 
 def _max_sample_edges_per_assertion(cycles, cpol, cpha):
@@ -772,8 +809,10 @@ def check_C50(rep):
     rep.rule = ("real SPIDeviceInterface cycles recorded and validated against SpiDev.tla; non-trivial = a sample edge "
                 "under CS, a word_complete strobe or a CS transition; distinct by (word size, mode, bit order, bit index "
                 "in word, word index in assertion, event)")
-    rep.assume("SPI host: SCK and CS never change in the same or in consecutive device-clock cycles; CS is asserted "
-               "only while SCK is at its idle level (CPOL); SDI does not change in the cycle of an SCK edge")
+    rep.assume("SPI host: SCK edges are at least two device-clock cycles apart, CS changes likewise; SCK and CS never "
+               "change in the same cycle but may change in adjacent cycles (CS released 1..6 cycles after the last edge "
+               "and asserted 1..6 cycles before the first are swept); CS is asserted only while SCK is at its idle "
+               "level (CPOL); SDI does not change in the cycle of an SCK edge")
     rep.assume("word_out changes only away from SCK/CS transitions (not in the cycle of or before one) and not while a "
                "completed word awaits its word_complete strobe; the word presented for a word is word_out while "
                "deselected (first word) / at the completing sample edge of the previous word")
@@ -784,7 +823,7 @@ def check_C50(rep):
 
     tm.phase("model_check")
     # 1. exhaustive exploration of the specification
-    runs = [("{2}", "{0, 1, 2, 3}", "{TRUE}", 2, 2, 2), ("{3}", "{1}", "{FALSE}", 1, 2, 2)] if quick else \
+    runs = [("{2}", "{1, 2}", "{TRUE}", 2, 2, 2), ("{3}", "{0}", "{FALSE}", 1, 2, 2)] if quick else \
            [("{1, 2}", "{0, 1, 2, 3}", "{TRUE, FALSE}", 2, 3, 3), ("{3}", "{0, 1, 2, 3}", "{TRUE, FALSE}", 2, 2, 3),
             ("{4}", "{1, 2}", "{TRUE, FALSE}", 2, 2, 2), ("{5}", "{1}", "{TRUE}", 1, 2, 2)]
     for sizes, modes, orders, maxbits, maxwords, maxlat in runs:
@@ -800,7 +839,7 @@ def check_C50(rep):
     # 2. stimuli
     jobs = []   # (ws, cpol, cpha, msb, cs_idles_high, origin, cycles)
     sim_cfg = tlc.render_cfg(_cfg("SimSpiDev.cfg.tmpl"), {"WordSizes": "{1, 2, 3, 4, 5}"})
-    behs = tlc.simulate(SPEC_DIR, "SimSpiDev", sim_cfg, num=60 if quick else 500, depth=140, seed=rep.seed * 19 + 7,
+    behs = tlc.simulate(SPEC_DIR, "SimSpiDev", sim_cfg, num=32 if quick else 500, depth=130, seed=rep.seed * 19 + 7,
                         env=JVM_ENV)
     for b in behs:
         st0 = b[0][1]
@@ -812,16 +851,19 @@ def check_C50(rep):
             for msb in (True, False):
                 cpol, cpha = mode // 2, mode % 2
                 inv = (ws + mode + msb) % 5 == 0
-                pow2 = (ws & (ws - 1)) == 0
                 for k in range(1 if quick else 3):
-                    if pow2:
-                        cyc, _ = _spi_dev_stimulus(rep.rng, ws, cpol, cpha, [1, 2, 3])
-                        jobs.append((ws, cpol, cpha, msb, inv, "random", cyc))
+                    # 1..3 words per CS assertion with a CS timing sweep: release 1..6 cycles after the last edge,
+                    # assert 6..1 cycles before the first; the two bit orders of a (size, mode) share the six
+                    # offsets (both get 1); the last assertion of each trace is aborted inside a word
+                    if quick:
+                        words, offs = ((1, 3, 1), (1, 2, 3)) if msb else ((1, 1, 2, 1), (1, 4, 5, 6))
                     else:
-                        cyc, _ = _spi_dev_stimulus(rep.rng, ws, cpol, cpha, [1, 1, 1])
-                        jobs.append((ws, cpol, cpha, msb, inv, "random-single-word", cyc))
-                        cyc, _ = _spi_dev_stimulus(rep.rng, ws, cpol, cpha, [2, 3, 1], aborts=False)
-                        jobs.append((ws, cpol, cpha, msb, inv, "random-multi-word", cyc))
+                        words, offs = (1, 2, 3, 1, 2, 1), (1, 2, 3, 4, 5, 6)
+                    jobs.append((ws, cpol, cpha, msb, inv, "cs-timing-sweep",
+                                 _spi_dev_sweep(rep.rng, ws, cpol, cpha, words, offs)))
+                    if not quick:
+                        jobs.append((ws, cpol, cpha, msb, inv, "random-multi-word",
+                                     _spi_dev_stimulus(rep.rng, ws, cpol, cpha, [1, 2, 3])))
 
     tm.phase("drive_real_gateware")
     # 3. run on the real module
@@ -866,7 +908,7 @@ def check_C50(rep):
                              env=JVM_ENV, steps_of=lambda t: len(t["steps"]), what_prefix="[clean] ")
     n_wit = validate_group(rep, SPEC_DIR, "SpiDevTrace", cfg, witness, classify=_spi_dev_classify,
                            env=JVM_ENV, steps_of=lambda t: len(t["steps"]),
-                           what_prefix="[witness C50-bit-counter-not-wrapped] ")
+                           what_prefix="[multi-word at non-power-of-two size, cf. C50-bit-counter-not-wrapped] ")
     rep.notes.append("clean traces accepted: %d/%d; witness traces (second word, non-power-of-two size) accepted: %d/%d"
                      % (n_clean, len(clean), n_wit, len(witness)))
     tm.phase("end")
@@ -1008,6 +1050,45 @@ class SpiRegBench:
                 await cyc(rng.randint(1, 3))
                 ctx.set(spi.sck, 0)
                 await cyc(rng.randint(4, 6))
+            elif e == "cut":
+                # one SCK pulse during which CS is released `off` cycles after (>0), in the very cycle of (0) or
+                # before (<0) the rising / falling edge of the pulse
+                at, off = ev["at"], ev["off"]
+                ctx.set(spi.sdi, ev["b"])
+                await cyc(rng.randint(1, 3))
+                if at == "rise":
+                    if off < 0:
+                        ctx.set(spi.cs, 0)
+                        await cyc(-off)
+                        ctx.set(spi.sck, 1)
+                        await cyc(rng.randint(2, 3))
+                    elif off == 0:
+                        ctx.set(spi.cs, 0)
+                        ctx.set(spi.sck, 1)
+                        await cyc(rng.randint(2, 3))
+                    else:
+                        ctx.set(spi.sck, 1)
+                        await cyc(off)
+                        ctx.set(spi.cs, 0)
+                        await cyc(rng.randint(1, 2))
+                    ctx.set(spi.sck, 0)
+                else:
+                    ctx.set(spi.sck, 1)
+                    if off < 0:
+                        await cyc(rng.randint(1, 2))
+                        ctx.set(spi.cs, 0)
+                        await cyc(-off)
+                        ctx.set(spi.sck, 0)
+                    elif off == 0:
+                        await cyc(rng.randint(2, 4))
+                        ctx.set(spi.cs, 0)
+                        ctx.set(spi.sck, 0)
+                    else:
+                        await cyc(rng.randint(2, 4), high=True)
+                        ctx.set(spi.sck, 0)
+                        await cyc(off)
+                        ctx.set(spi.cs, 0)
+                await cyc(rng.randint(4, 6))
             elif e == "desel":
                 ctx.set(spi.cs, 0)
                 await cyc(rng.randint(4, 6))
@@ -1051,6 +1132,8 @@ def _tx_events(A, R, write, addr, data, nbits=None, end="desel", extra=0):
     ev = [{"e": "sel"}] + [{"e": "bit", "b": b} for b in bits[:nbits]]
     if end == "mid":
         ev.append({"e": "mid", "b": bits[nbits] if nbits < total else 1})
+    elif isinstance(end, tuple):                                  # ("cut", at, off)
+        ev.append({"e": "cut", "b": bits[nbits] if nbits < total else 1, "at": end[1], "off": end[2]})
     else:
         ev += [{"e": "bit", "b": 1 - (k % 2)} for k in range(extra)]
         ev.append({"e": "desel"})
@@ -1100,10 +1183,44 @@ def _spi_reg_events(rng, layout, ntx, abort_points=None):
             ev += _tx_events(A, R, write, addr, rnd_data(), extra=rng.choice((1, 2, 3, R, R + 1, 2 * R)))
         elif y < 0.85:
             ev += _tx_events(A, R, write, addr, rnd_data(), nbits=rng.randint(0, A + R))
-        else:
+        elif y < 0.92:
             ev += _tx_events(A, R, write, addr, rnd_data(), nbits=rng.randint(0, A + R), end="mid")
+        else:
+            k = rng.randint(0, A + R)
+            at, off = rng.choice(_CUTS)
+            if at == "fall" and off == 0 and k == A + R:
+                off = 1
+            ev += _tx_events(A, R, write, addr, rnd_data(), nbits=k, end=("cut", at, off))
         if write and addr in rw and rng.random() < 0.7:
             ev += _tx_events(A, R, False, addr, rnd_data())          # read it back
+    return ev
+
+
+_CUTS = [(at, off) for at in ("fall", "rise") for off in range(-2, 5)]
+
+
+def _cut_sweep_events(rng, layout, full):
+    """Aborts with CS released at every cycle offset -2..+4 around the falling and the rising SCK edge of a bit, at the
+    bit-count classes first bit / mid-command / last command bit / mid-data / last data bit; every one is an attempted
+    write to a memory register and is followed by a complete read-back of that register.  `full`: every (class, offset)
+    pair; otherwise every pair for the offsets -1, 0, +1 of the falling edge and a rotation for the others."""
+    A, R = layout["A"], layout["R"]
+    rw = [a for a, k, _ in layout["regs"] if k == "rw"]
+    total = A + 1 + R
+    classes = sorted({0, max(1, A // 2), A, A + 1 + (R - 1) // 2, total - 1})    # whole bits clocked before the cut bit
+    ev = []
+    n = 0
+    for at, off in _CUTS:
+        for ci, k in enumerate(classes):
+            critical = at == "fall" and off in (-1, 0, 1)
+            if not (full or critical or (n + ci) % len(classes) == 0):
+                continue
+            if at == "fall" and off == 0 and k == total - 1:
+                continue                                         # excluded by the Env (see SpiReg.tla, EnvFail)
+            a = rng.choice(rw)
+            ev += _tx_events(A, R, True, a, rng.getrandbits(R), nbits=k, end=("cut", at, off))
+            ev += _tx_events(A, R, False, a, rng.getrandbits(R))
+        n += 1
     return ev
 
 
@@ -1114,6 +1231,8 @@ def _events_from_behaviour(beh):
         r = {"e": e["e"]}
         if "b" in e:
             r["b"] = e["b"]
+        if e["e"] == "cut":
+            r["at"], r["off"] = e["at"], e["off"]
         if e["e"] == "poke":
             r["a"], r["v"] = e["a"], list(e["v"])
         out.append(r)
@@ -1145,8 +1264,10 @@ def check_C51(rep):
                "every falling SCK edge and every CS change; SDO is sampled in every cycle SCK is high and must be stable")
     rep.assume("every effect of a bit (write strobe, register update, SDO of the next bit) must be visible within the "
                "cycles the host leaves after the bit's falling edge (>= 4)")
-    rep.assume("an abort is CS released before the falling edge of the last data bit (at an SCK-low point or while SCK is "
-               "high); the external signal of a signal-backed read-only register changes only between transactions")
+    rep.assume("an abort is CS released before, or in the very cycle of, the falling SCK edge of a bit (swept: -2..+4 "
+               "cycles around the rising and the falling edge, at every bit-count class); CS released in the very cycle of "
+               "the falling edge of the LAST data bit is excluded (completion undefined); the external signal of a "
+               "signal-backed read-only register changes only between transactions")
 
     tm.phase("model_check")
     # 1. exhaustive exploration of the specification
@@ -1177,6 +1298,7 @@ def check_C51(rep):
         for k in range(1 if quick else 4):
             jobs.append((name, "directed-aborts+random",
                          _spi_reg_events(rep.rng, L, 10 if quick else 40, abort_points=pts if k == 0 else None)))
+        jobs.append((name, "cs-release-offset-sweep", _cut_sweep_events(rep.rng, L, full=(name != "real" or not quick))))
 
     tm.phase("drive_real_gateware")
     # 3. run on the real module
